@@ -117,7 +117,7 @@ func (c12Prop) Generate(seed uint64, idx int, tier string) *Plan {
 		// parallel burst (see C12Plan.Burst): few operation kinds, many repeats
 		pl.Burst = r.PickInt([]int{30, 100})
 		kinds := [][]string{{"register"}, {"parsetime"}, {"register", "build"}, {"parsetime", "encode"}, {"register", "parsetime"}, {"build", "schema"}, {"decode", "decodeproj"}, {"regshared"}, {"regshared", "build"}, {"decodebad"}, {"decodebad", "decode"}, {"timelong"}, {"timelong", "parsetime"}, {"deepschema"}, {"deepschema", "fromstring"}, {"fromstring"}, {"bankchurn"}, {"bankchurn"}, {"bankchurn", "decode"}}[r.Intn(19)]
-		if kinds[0] == "parsetime" || kinds[0] == "bankchurn" {
+		if kinds[0] == "parsetime" {
 			pl.Burst = r.PickInt([]int{1000, 5000}) // a timestamp parse costs about a microsecond
 		}
 		pl.Ops = nil
@@ -810,24 +810,28 @@ func (env *c12Env) execOp(g int, op C12Op, alone bool) (res string) {
 		_, off := out.T.Zone()
 		return fmt.Sprintf("time err=%v unixnano=%d off=%d", err, out.T.UnixNano(), off)
 	case "bankchurn":
-		// banks taken from and returned to the pool in quick succession; while a
-		// bank is held, what this goroutine put into it is nobody else's to touch
+		// banks taken from and returned to the pool in quick succession, three held
+		// at a time; while a bank is held, what this goroutine put into it is
+		// nobody else's to touch
 		mark := int64(g+1)<<32 | int64(op.A)
 		bad := 0
-		for i := 0; i < 3+op.B%4; i++ {
+		for i := 0; i < 24+op.B%16; i++ {
 			rb := avro.NewReadBuf(nil)
-			p1 := (*int64)(rb.Alloc(int64Type))
-			bank := rb.ExtractResourceBank()
-			p2 := (*int64)(bank.Alloc(int64Type))
-			s := bank.ToString([]byte("owner-"))
-			*p1, *p2 = mark, ^mark
-			if !alone {
+			b1 := rb.ExtractResourceBank()
+			b2 := rb.ExtractResourceBank()
+			p1 := (*int64)(b1.Alloc(int64Type))
+			p2 := (*int64)(b2.Alloc(int64Type))
+			p3 := (*int64)(rb.Alloc(int64Type))
+			*p1, *p2, *p3 = mark, ^mark, mark+1
+			s := b1.ToString([]byte("owner-"))
+			if i%8 == 7 && !alone {
 				runtime.Gosched()
 			}
-			if *p1 != mark || *p2 != ^mark || s != "owner-" || p1 == p2 {
+			if *p1 != mark || *p2 != ^mark || *p3 != mark+1 || s != "owner-" || p1 == p2 || p2 == p3 {
 				bad++
 			}
-			bank.Close()
+			b1.Close()
+			b2.Close()
 			rb.ExtractResourceBank().Close()
 		}
 		return fmt.Sprintf("bankchurn foreign-writes=%d", bad)
@@ -1018,13 +1022,37 @@ func readRaceLog() string {
 	if path == "" {
 		return ""
 	}
-	b, err := os.ReadFile(fmt.Sprintf("%s.%d", path, os.Getpid()))
-	if err != nil || int64(len(b)) <= raceLogOff {
+	f, err := os.Open(fmt.Sprintf("%s.%d", path, os.Getpid()))
+	if err != nil {
 		return ""
 	}
-	s := string(b[raceLogOff:])
-	raceLogOff = int64(len(b))
-	return s
+	defer f.Close()
+	st, err := f.Stat()
+	if err != nil || st.Size() <= raceLogOff {
+		return ""
+	}
+	// A tree with a wholesale race can make the detector write gigabytes in
+	// one parallel burst; the first megabyte of reports says what there is to
+	// say (the count in the violation text is then a lower bound).
+	n := min(st.Size()-raceLogOff, 1<<20)
+	b := make([]byte, n)
+	if _, err := f.ReadAt(b, raceLogOff); err != nil && err != io.EOF {
+		return ""
+	}
+	raceLogOff = st.Size()
+	return string(b)
+}
+
+func raceLogSize() int64 {
+	path := os.Getenv("VERIF_RACE_LOG")
+	if path == "" {
+		return 0
+	}
+	st, err := os.Stat(fmt.Sprintf("%s.%d", path, os.Getpid()))
+	if err != nil {
+		return 0
+	}
+	return st.Size()
 }
 
 func raceSite(report string) string {
@@ -1205,6 +1233,7 @@ func c12Burst(p *Plan, run *Run) any {
 	}
 	first := make([][]string, ng)
 	mism := make([]string, ng)
+	var enough atomic.Bool // set by the ticker only; a load that sees false orders nothing
 	// when a burst plan is replayed (or re-checked by the minimiser) it is given
 	// more repetitions: the plan is the same, only the exposure is longer
 	reps := min(pl.Burst*envInt("VERIF_BURST_BOOST", 1), max(pl.Burst, 20000))
@@ -1216,7 +1245,7 @@ func c12Burst(p *Plan, run *Run) any {
 		go func(g int) {
 			defer wg.Done()
 			<-start
-			for r := 0; r < reps; r++ {
+			for r := 0; r < reps && !enough.Load(); r++ {
 				for i, op := range pl.Ops[g] {
 					res := env.execOp(g, op, false)
 					if r == 0 {
@@ -1238,6 +1267,11 @@ func c12Burst(p *Plan, run *Run) any {
 				return
 			case <-time.After(200 * time.Millisecond):
 				os.Stderr.WriteString("@@T\n")
+				// the detector has no cap of its own: once it has written a few
+				// megabytes of reports there is nothing more to learn from this burst
+				if raceLogSize()-raceLogOff > 4<<20 {
+					enough.Store(true)
+				}
 			}
 		}
 	}()
